@@ -801,6 +801,13 @@ coap_session_send_ping_lkd(coap_session_t *session) {
   if (session->state != COAP_SESSION_STATE_ESTABLISHED ||
       session->con_active)
     return COAP_INVALID_MID;
+#if COAP_CLIENT_SUPPORT
+  if (session->type == COAP_SESSION_TYPE_CLIENT &&
+      !coap_netif_available(session)) {
+    /* The socket has been closed by coap_session_disconnected() */
+    return COAP_INVALID_MID;
+  }
+#endif /* COAP_CLIENT_SUPPORT */
   if (COAP_PROTO_NOT_RELIABLE(session->proto)) {
     uint16_t mid = coap_new_message_id_lkd(session);
     ping = coap_pdu_init(COAP_MESSAGE_CON, 0, mid, 0);
